@@ -175,6 +175,12 @@ type encLine struct {
 	SortedEsc []int              `json:"sortedesc"`
 	SortedRaw []int              `json:"sortedraw"`
 	Keys      [][]int            `json:"keys"`
+	Tokens    []struct {
+		K  string `json:"k"`
+		C  int    `json:"c"`
+		Cp []int  `json:"cp"`
+		B  bool   `json:"b"`
+	} `json:"tokens"`
 	IndP      []int              `json:"indp"`
 	IndI      []int              `json:"indi"`
 	IndB      []int              `json:"indb"`
@@ -319,6 +325,52 @@ func (e *engine) checkEncLine(worker int, raw []byte) error {
 			if err != nil || fmt.Sprintf("%q", keys) != fmt.Sprintf("%q", wantKeys) {
 				e.rep.Report(viol("keys", "UnmarshalWithKeys does not report the member names in document order",
 					map[string]interface{}{"api": "UnmarshalWithKeys", "keys": keys, "want": wantKeys}))
+			}
+		}
+		// Decoder.Token: the token stream of the text is the specification's Tokens(v)
+		{
+			dec := codec.NewDecoder(bytes.NewReader(text))
+			dec.UseNumber()
+			var got []string
+			for {
+				t, err := dec.Token()
+				if err != nil {
+					if err != io.EOF {
+						got = append(got, "ERR:"+err.Error())
+					}
+					break
+				}
+				switch x := t.(type) {
+				case codec.Delim:
+					got = append(got, "delim:"+string(rune(x)))
+				case string:
+					got = append(got, "str:"+x)
+				case bool:
+					got = append(got, fmt.Sprintf("bool:%v", x))
+				case nil:
+					got = append(got, "null")
+				default:
+					got = append(got, "num:"+fmt.Sprint(x))
+				}
+			}
+			var want []string
+			for _, t := range ln.Tokens {
+				switch t.K {
+				case "delim":
+					want = append(want, "delim:"+string(rune(t.C)))
+				case "str":
+					want = append(want, "str:"+cpString(t.Cp))
+				case "num":
+					want = append(want, "num:"+cpString(t.Cp))
+				case "bool":
+					want = append(want, fmt.Sprintf("bool:%v", t.B))
+				default:
+					want = append(want, "null")
+				}
+			}
+			if strings.Join(got, "\x00") != strings.Join(want, "\x00") {
+				e.rep.Report(viol("tokens", "Decoder.Token does not yield the token stream of the text",
+					map[string]interface{}{"api": "Decoder.Token", "got": got, "want": want}))
 			}
 		}
 		// Encoder.SetIndent: prefix only, indent only, both
